@@ -14,8 +14,10 @@ All three clauses of the property are theorems about the model, for every text, 
 * `dollar_dollar_first`, `dollar_tag_first`: a dollar-quoted string ends at the first repetition of its tag;
 * `first_occurrence_meaning`: what "first" means for `strings.Index` as modelled.
 
-The callers' glue (`parseString` = `parseStringCore` at offset 1 with `rest[0]`, `parseTick`,
-`parseEString`, `parseUString`, `parseVar`) is covered by the correspondence and the oracle. -/
+**The callers' glue is proved too** (`plain_string_glue`, `estring_glue`, `nstring_glue`, `ustring_glue`,
+`quoted_variable_glue`): `'…'`/`"…"`, `e'…'`, `n'…'`, `u&'…'` and `@'…'`/`@"…"` each resume right after the first real
+terminator of their content (or at the end of input) with the token at the content's offset. `parseTick` (back-ticks) is
+the core at offset 1 followed by a table look-up of the value; it is covered by `string_literal_spec` with `d = 96`. -/
 namespace LibInj.Properties.C18
 open LibInj LibInj.Sqli LibInj.Spec
 
@@ -77,5 +79,96 @@ repaired defect closes at the second quote; an escaped and a doubled quote are s
 example : closingQuote [92, 39, 39] 39 = some 2 := by decide
 example : closingQuote [97, 39, 39, 98, 92, 39, 39, 99] 39 = some 6 := by decide
 example : closingQuote [92, 92, 39, 120] 39 = some 2 := by decide
+
+/-- what every literal form reports about its end: resumes after the first real terminator of the content, or at the end
+of input when there is none -/
+def EndsAtFirst (r : Lex) (rest : Bytes) (offset : Nat) (d : UInt8) : Prop :=
+  (∀ q, closingQuote (rest.drop offset) d = some q → r.next = offset + q + 1 ∧ r.tok.len = clip q ∧ r.tok.pos = offset) ∧
+  (closingQuote (rest.drop offset) d = none → r.next = rest.length ∧ r.tok.pos = offset)
+
+theorem core_endsAtFirst (t : Token) (rest : Bytes) (offset : Nat) (d : UInt8) (hd : d ≠ 92) (ho : offset ≤ rest.length) :
+    ∃ r, parseStringCore t rest offset d = .ok r ∧ EndsAtFirst r rest offset d := by
+  refine ⟨_, parseStringCore_spec t rest offset d hd ho, ?_, ?_⟩
+  · intro q hq; simp [hq]
+  · intro hq; simp [hq]
+
+/-- **plain quoted string** `'…` / `"…`: `parseString` is the core at offset 1 with the opening byte as delimiter -/
+theorem plain_string_glue (t : Token) (c : UInt8) (body : Bytes) (hc : c ≠ 92) :
+    ∃ r, parseString t (c :: body) = .ok r ∧ EndsAtFirst r (c :: body) 1 c := by
+  unfold parseString
+  simp only [at', List.getElem?_cons_zero, bind, Except.bind]
+  exact core_endsAtFirst t (c :: body) 1 c hc (by simp)
+
+/-- **`e'…'`** (PostgreSQL escape string): the core at offset 2 with `'` -/
+theorem estring_glue (c0 b : UInt8) (body : Bytes) :
+    ∃ r, parseEString (c0 :: 39 :: b :: body) = .ok r ∧ EndsAtFirst r (c0 :: 39 :: b :: body) 2 39 := by
+  unfold parseEString
+  have hcond : (g (decide (2 ≥ (c0 :: 39 :: b :: body).length)) <||> byteNe (c0 :: 39 :: b :: body) 1 39) = .ok false := by
+    simp [orM, g, byteNe, at', bind, Except.bind, pure, Except.pure, toBool]
+  simp only [hcond, bind, Except.bind, Bool.false_eq_true, ↓reduceIte]
+  exact core_endsAtFirst {} _ 2 39 (by decide) (by simp)
+
+/-- **`n'…'`** (national string) goes through the same lexer as `e'…'` -/
+theorem nstring_glue (c0 b : UInt8) (body : Bytes) :
+    ∃ r, parseNqString (c0 :: 39 :: b :: body) = .ok r ∧ EndsAtFirst r (c0 :: 39 :: b :: body) 2 39 := by
+  unfold parseNqString
+  have hcond : (g (decide (2 < (c0 :: 39 :: b :: body).length)) <&&> byteIs (c0 :: 39 :: b :: body) 1 39) = .ok true := by
+    simp [andM, g, byteIs, at', bind, Except.bind, pure, Except.pure, toBool]
+  simp only [hcond, bind, Except.bind, ↓reduceIte]
+  exact estring_glue c0 b body
+
+/-- **`u&'…'`** (unicode string): a plain string lexed two bytes in, re-based -/
+theorem ustring_glue (c0 : UInt8) (body : Bytes) :
+    ∃ r, parseUString (c0 :: 38 :: 39 :: body) = .ok r ∧
+      (∀ q, closingQuote body 39 = some q → r.next = 3 + q + 1 ∧ r.tok.len = clip q ∧ r.tok.pos = 3) ∧
+      (closingQuote body 39 = none → r.next = (c0 :: 38 :: 39 :: body).length ∧ r.tok.pos = 3) := by
+  unfold parseUString
+  have hcond : (g (decide (2 < (c0 :: 38 :: 39 :: body).length)) <&&> byteIs (c0 :: 38 :: 39 :: body) 1 38 <&&> byteIs (c0 :: 38 :: 39 :: body) 2 39) = .ok true := by
+    simp [andM, g, byteIs, at', bind, Except.bind, pure, Except.pure, toBool]
+  simp only [hcond, bind, Except.bind, ↓reduceIte, sliceFrom]
+  simp only [show (2 ≤ (c0 :: 38 :: 39 :: body).length) = True by simp, ↓reduceIte, List.drop_succ_cons, List.drop_zero]
+  obtain ⟨r, hr, h1, h2⟩ := plain_string_glue {} 39 body (by decide)
+  rw [hr]
+  simp only [List.drop_succ_cons, List.drop_zero] at h1 h2
+  refine ⟨_, rfl, ?_, ?_⟩
+  · intro q hq
+    obtain ⟨a, b, c⟩ := h1 q hq
+    simp only [shift, pure, Except.pure]
+    refine ⟨by rw [a]; omega, b, by rw [c]⟩
+  · intro hq
+    obtain ⟨a, c⟩ := h2 hq
+    simp only [shift, pure, Except.pure]
+    refine ⟨by rw [a]; simp, by rw [c]⟩
+/-- **`@'…'` / `@"…"`** (quoted variable): a plain string lexed one byte in, re-based, re-classified as a variable -/
+theorem quoted_variable_glue (q : UInt8) (hq : q = 39 ∨ q = 34) (body : Bytes) :
+    ∃ r, parseVar (64 :: q :: body) = .ok r ∧ r.tok.cat = 118 ∧
+      (∀ k, closingQuote body q = some k → r.next = 2 + k + 1 ∧ r.tok.len = clip k ∧ r.tok.pos = 2) ∧
+      (closingQuote body q = none → r.next = (64 :: q :: body).length ∧ r.tok.pos = 2) := by
+  have hq92 : q ≠ 92 := by rcases hq with rfl | rfl <;> decide
+  have hq64 : (some q == some (64 : UInt8)) = false := by rcases hq with rfl | rfl <;> decide
+  have hq96 : (q == 96) = false := by rcases hq with rfl | rfl <;> decide
+  have hqq : (q == 39 || q == 34) = true := by rcases hq with rfl | rfl <;> decide
+  unfold parseVar
+  have hn : (1 < (64 :: q :: body).length) = True := by simp
+  have h1 : (64 :: q :: body)[1]? = some q := rfl
+  simp only [hn, decide_true, Bool.true_and, h1, hq64, Bool.false_eq_true, ↓reduceIte, bind, Except.bind]
+  have hat : at' (64 :: q :: body) 1 = .ok q := rfl
+  simp only [hat, hq96, Bool.false_eq_true, ↓reduceIte, hqq, sliceFrom, show (1 ≤ (64 :: q :: body).length) = True by simp,
+    List.drop_succ_cons, List.drop_zero]
+  obtain ⟨r, hr, h1, h2⟩ := plain_string_glue { count := 1 } q body hq92
+  rw [hr]
+  simp only [List.drop_succ_cons, List.drop_zero] at h1 h2
+  refine ⟨_, rfl, rfl, ?_, ?_⟩
+  · intro k hk
+    obtain ⟨a, b, c⟩ := h1 k hk
+    simp only [shift]
+    refine ⟨by rw [a]; omega, b, by rw [c]⟩
+  · intro hk
+    obtain ⟨a, c⟩ := h2 hk
+    simp only [shift]
+    refine ⟨by rw [a]; simp, by rw [c]⟩
+
+/-- non-vacuity: in `e'a\\'b'c` the content `a\'b'c` has its first real terminator at offset 4 (the quote at 2 is escaped) -/
+example : closingQuote (bs "a\\'b'c") 39 = some 4 := by decide +kernel
 
 end LibInj.Properties.C18
